@@ -4,6 +4,8 @@ package main
 // loops), class-hierarchy resolution of interface and function-value calls.
 
 import (
+	"os"
+	"go/token"
 	"fmt"
 	"go/types"
 	"sort"
@@ -482,10 +484,113 @@ func (e *Engine) callees(in ssa.Instruction) []*ssa.Function {
 	if mc, ok := cc.Value.(*ssa.MakeClosure); ok {
 		return append(out, mc.Fn.(*ssa.Function))
 	}
+	if fs, ok := funcCellValues(cc.Value); ok && os.Getenv("GOVC_NOFUNCCELL") == "" {
+		return append(out, fs...)
+	}
 	if sig, ok := cc.Value.Type().Underlying().(*types.Signature); ok {
 		out = append(out, e.funcsWithSig(sig)...)
 	}
 	return out
+}
+
+// funcCellValues resolves a function value loaded from a local variable (an
+// Alloc of function type, possibly captured by closures of the same function)
+// when every store to that variable stores a closure or a named function and
+// the variable's address is used for nothing else.
+func funcCellValues(v ssa.Value) ([]*ssa.Function, bool) {
+	ld, ok := v.(*ssa.UnOp)
+	if !ok || ld.Op != token.MUL {
+		return nil, false
+	}
+	alloc := rootAlloc(ld.X)
+	if alloc == nil {
+		return nil, false
+	}
+	var out []*ssa.Function
+	okAll := true
+	var visit func(addr ssa.Value)
+	visit = func(addr ssa.Value) {
+		refs := addr.Referrers()
+		if refs == nil {
+			okAll = false
+			return
+		}
+		for _, r := range *refs {
+			switch r := r.(type) {
+			case *ssa.Store:
+				if r.Addr != addr {
+					okAll = false // the address itself is stored somewhere
+					continue
+				}
+				switch val := r.Val.(type) {
+				case *ssa.MakeClosure:
+					out = append(out, val.Fn.(*ssa.Function))
+				case *ssa.Function:
+					out = append(out, val)
+				case *ssa.Const:
+					// nil
+				default:
+					okAll = false
+				}
+			case *ssa.UnOp:
+				// load
+			case *ssa.MakeClosure:
+				fn := r.Fn.(*ssa.Function)
+				for i, b := range r.Bindings {
+					if b == addr && i < len(fn.FreeVars) {
+						visit(fn.FreeVars[i])
+					}
+				}
+			case *ssa.DebugRef:
+			default:
+				okAll = false
+			}
+		}
+	}
+	visit(alloc)
+	if !okAll {
+		return nil, false
+	}
+	return out, true
+}
+
+// rootAlloc follows a free variable back to the Alloc it was bound to.
+func rootAlloc(v ssa.Value) *ssa.Alloc {
+	for depth := 0; depth < 8; depth++ {
+		switch a := v.(type) {
+		case *ssa.Alloc:
+			return a
+		case *ssa.FreeVar:
+			fn := a.Parent()
+			par := fn.Parent()
+			if par == nil {
+				return nil
+			}
+			idx := -1
+			for i, fv := range fn.FreeVars {
+				if fv == a {
+					idx = i
+				}
+			}
+			var bound ssa.Value
+			n := 0
+			for _, b := range par.Blocks {
+				for _, in := range b.Instrs {
+					if mc, ok := in.(*ssa.MakeClosure); ok && mc.Fn == fn && idx >= 0 && idx < len(mc.Bindings) {
+						bound = mc.Bindings[idx]
+						n++
+					}
+				}
+			}
+			if n != 1 {
+				return nil
+			}
+			v = bound
+		default:
+			return nil
+		}
+	}
+	return nil
 }
 
 // funcArgCallees: functions passed as arguments at a call of a module function
@@ -650,6 +755,15 @@ func (e *Engine) directWrites(f *ssa.Function, in ssa.Instruction, d *modSet) {
 					}
 				}
 			}
+		}
+		if callee != nil && strings.HasPrefix(callee.String(), "(*strings.Builder).") {
+			switch callee.Name() {
+			case "String", "Len", "Cap", "Grow":
+				return
+			}
+			d.keys[ghostBuilder] = true
+			e.keySorts[ghostBuilder] = ArrSort(SInt, SStr)
+			return
 		}
 		if callee != nil && strings.HasPrefix(callee.String(), "(*bufio.Reader).") {
 			d.keys[ghostCanUnread] = true
